@@ -2,10 +2,22 @@
    Statements only; proofs in Proofs/RedactFacts.v.  Proved so far on the redact
    model: a safe argument (constant message, format literal, Safe() value) is
    printed outside any marker and is kept verbatim by Redact(); text outside
-   markers is kept by Redact().  Retention through the whole engine and report is
-   decided on every run by the correspondence stream and the token search on
-   the implementation (proof listed as missing in the evidence). *)
-From Errv Require Import Base.Str Redact.Markers Redact.Buffer Proofs.RedactFacts Proofs.RedactWf.
+   markers is kept by Redact().
+   Proofs/SafeRetained.v, for every error tree:
+   - C12_safe_piece_retained: whatever the other arguments of a message (any bytes, unsafe
+     values, nested redactable strings), an ASCII literal or Safe() argument is a substring of
+     the safe detail of its layer;
+   - C12_nothing_lost: every safe detail that ANY layer declares -- on the cause chain, behind
+     barriers, in secondary errors, at any nesting depth -- is present in GetAllSafeDetails
+     (indented by two spaces per hiding level); channel instances for telemetry keys, domains,
+     issue links, tag keys, message pieces; after k hops for exact-kind trees;
+   - the report message contains the redacted verbose rendering and the type line of every layer.
+   What is NOT retained is stated by witnesses in SafeRetained.v (details of layers inside
+   multi-cause branches are in the report only; a hidden layer without details leaves no type
+   name in GetAllSafeDetails; HTTP / gRPC codes are in the report only -- none of these is in the
+   property's list). *)
+From Errv Require Import Base.Str Redact.Markers Redact.Buffer Model.Err Model.Sem Model.Details Model.Marks
+     Model.Codec Model.Report Proofs.RedactFacts Proofs.RedactWf Proofs.ReportFacts Proofs.HiddenVisible Proofs.ExactHop Proofs.SafeRetained.
 
 (* a call made only of literals and safe arguments (any bytes) prints no marker at
    all: nothing of it can be removed by Redact() *)
@@ -24,6 +36,52 @@ Theorem C12_redact_keeps_plain : forall s rest,
   no_e2 s = true -> redact (s ++ rest) = s ++ redact rest.
 Proof. exact redact_plain. Qed.
 Print Assumptions C12_redact_keeps_plain.
+
+(* ---- the whole tree ---- *)
+Theorem C12_safe_piece_retained : forall pre q post s,
+  pieces_ok pre -> pieces_ok post -> is_safe_piece_of q s -> ascii s = true ->
+  infix_of s (redact_strip (sprint_pieces (pre ++ q :: post))).
+Proof. exact safe_piece_retained. Qed.
+Print Assumptions C12_safe_piece_retained.
+
+Theorem C12_nothing_lost : forall e k n d,
+  In (k, n) (deep_nodes e) -> In d (own_details n) ->
+  exists p d', In p (get_all_safe_details e) /\ In d' (sd_details p) /\ d' = indent_k k d.
+Proof. exact deep_details_retained. Qed.
+Print Assumptions C12_nothing_lost.
+
+Theorem C12_nothing_lost_after_transfer : forall e k n lv x d,
+  exact_tree e = true ->
+  In (lv, x) (deep_nodes e) -> In d (own_details x) ->
+  exists p, In p (get_all_safe_details (fst (transfer (List.repeat all_knowing k) e n))) /\
+            In (indent_k lv d) (sd_details p).
+Proof. exact deep_details_retained_after_transfer. Qed.
+Print Assumptions C12_nothing_lost_after_transfer.
+
+(* channels, anywhere in the tree (lv = number of barriers / secondary positions above) *)
+Theorem C12_channels : forall e lv i c,
+  (forall keys k, In (lv, Wrap i (WTelemetry keys) c) (deep_nodes e) -> In k keys ->
+     exists p, In p (get_all_safe_details e) /\ In (indent_k lv k) (sd_details p)) /\
+  (forall d, In (lv, Wrap i (WDomain d) c) (deep_nodes e) ->
+     exists p, In p (get_all_safe_details e) /\ In (indent_k lv d) (sd_details p)) /\
+  (forall url det, In (lv, Wrap i (WIssueLink url det) c) (deep_nodes e) ->
+     exists p, In p (get_all_safe_details e) /\ In (indent_k lv url) (sd_details p) /\ In (indent_k lv det) (sd_details p)) /\
+  (forall tags k v, In (lv, Wrap i (WContext tags None) c) (deep_nodes e) -> In (k, v) tags -> ascii k = true ->
+     exists p d, In p (get_all_safe_details e) /\ In (indent_k lv d) (sd_details p) /\ infix_of k d).
+Proof.
+  intros e lv i c. repeat split; intros.
+  - eapply deep_telemetry_key_retained; eassumption.
+  - eapply deep_domain_retained; eassumption.
+  - eapply deep_issue_link_retained; eassumption.
+  - eapply deep_tag_key_retained; eassumption.
+Qed.
+Print Assumptions C12_channels.
+
+Theorem C12_report : forall e,
+  infix_of (redact_strip (fmt_red_verbose e)) (rp_message (build_report e)) /\
+  (forall n, In n (visit_all e) -> infix_of (type_line n) (rp_types (build_report e))).
+Proof. intro e. split; [apply report_message_has_verbose | intros n H; now apply report_type_line_retained]. Qed.
+Print Assumptions C12_report.
 
 Example C12_example :
   redact (sprint_pieces [PSafe (lit "pgcode"); PLit (lit ": "); PUnsafe (lit "u")]) =
